@@ -1,0 +1,18 @@
+// Package antipanic shields the callers of this module from panics raised by the resolvers of go-openapi/spec.
+package antipanic
+
+import "fmt"
+
+// Run calls f and returns its error.
+//
+// A panic raised while f runs is returned as an error: the spec package panics when a $ref is a JSON pointer to an
+// optional part that its target does not define (jsonpointer yields a typed nil pointer, which spec then marshals).
+func Run(f func() error) (err error) {
+	defer func() {
+		if r := recover(); r != nil {
+			err = fmt.Errorf("invalid $ref: %v", r)
+		}
+	}()
+
+	return f()
+}
